@@ -24,7 +24,8 @@ CONSTANTS
 
 (* ---- abstract PKI ------------------------------------------------------ *)
 CAs     == {"A", "S", "B"}                 \* A and S share the name n1 (sibling keys); B has name n2
-NameOf(ca) == IF ca = "B" THEN "n2" ELSE "n1"
+Signers == CAs \cup {"E"}                  \* E: the end-entity c1 signing a CRL with its own key (never entitled, whatever is at hand)
+NameOf(ca) == IF ca = "B" THEN "n2" ELSE IF ca = "E" THEN "e1" ELSE "n1"
 Serials == {1, 2}
 Locs    == {"D", "U"}                      \* D: the CDP of certificate c1;  U: a configured crl_url / crl_file
 Certs   == { [id |-> "c1", ca |-> "A", serial |-> 1, cdp |-> "D"],
@@ -38,7 +39,7 @@ CertById(i) == CHOOSE c \in Certs : c.id = i
 NoDoc == [signer |-> "A", keys |-> {}, q |-> "nodoc"]
 Down  == [signer |-> "A", keys |-> {}, q |-> "down"]
 Garb  == [signer |-> "A", keys |-> {}, q |-> "garbage"]
-Docs  == [signer : CAs, keys : SUBSET Serials, q : {"valid"}]
+Docs  == [signer : Signers, keys : SUBSET Serials, q : {"valid"}]
          \cup [signer : {"A"}, keys : SUBSET Serials, q : {"critext"}]
          \cup {Down, Garb}
 DocsU == [signer : {"A", "S"}, keys : {{}, {2}}, q : {"valid"}] \cup {Garb}      \* what the configured location may serve
